@@ -1012,3 +1012,71 @@ def c07_r7(ctx):
                         rec = all(any(norm(strip_pre(e)) == "self._used_custom_scalars.append(used_custom_scalar)" for e in o.effects) for o in outs)
                         ctx.check(bool(outs) and rec, key(fi, sc + " recorded"), "a custom scalar used by an argument is not recorded: its imports are missing from the client module", fi.loc(),
                                   okmsg=f"{fi.qualname} [{sc}] scalar recorded")
+
+
+def _pred_truth(fi, atom):
+    """set of truth values a predicate function can return under the scenario (None = undecided)"""
+    it = Interp(fi, atom)
+    out = set()
+    for o in it.run():
+        if o.kind != "return":
+            out.add("raise")
+        elif o.value is None:
+            out.add(None)
+        else:
+            out.add(it.tv(o.value, o.env))
+    return out
+
+
+@rule("C05.R8", "is_nullable / is_union recognise exactly Optional[...] / Union[...] subscripts (they decide double wrapping and discriminators)", min_instances=14,
+      also=["C01", "C08", "C03"])
+def c05_r8(ctx):
+    repo = ctx.repo
+    for fn, head, const in (("is_nullable", "OPTIONAL", "Optional"), ("is_union", "UNION", "Union")):
+        fi = repo.func(RF + fn)
+        p = fi.node.args.args[0].arg
+        val = repo.resolve(repo.mod("client_generators.constants"), head)
+        ctx.check(val == ("const", const), key(fi, head), f"{head} is {val}", fi.loc(), okmsg=f"{head} == {const!r}")
+        for sub in (True, False):
+            for isname in (True, False):
+                for idok in (True, False):
+                    if not sub and (isname or idok):
+                        continue
+                    if not isname and idok:
+                        continue
+
+                    def atom(e, sub=sub, isname=isname, idok=idok):
+                        t = norm(strip_pre(e))
+                        if t == f"isinstance({p}, ast.Subscript)":
+                            return sub
+                        if t == f"isinstance({p}.value, ast.Name)":
+                            return isname
+                        if t in (f"{p}.value.id == {head}", f"{p}.value.id == '{const}'"):
+                            return idok
+                        if t in (f"{p}.value.id != {head}", f"{p}.value.id != '{const}'"):
+                            return not idok
+                        return None
+                    got = _pred_truth(fi, atom)
+                    want = sub and isname and idok
+                    ctx.check(got == {want}, key(fi, f"subscript={sub} name={isname} head={idok}"),
+                              f"{fn}(subscript={sub}, value is a Name={isname}, head is {const}={idok}) gives {sorted(map(str, got))}, expected {want}: "
+                              + ("a conditional field that is already Optional would be wrapped twice / a non-Optional one left required" if fn == "is_nullable"
+                                 else "union fields would lose (or plain fields gain) the `discriminator` keyword"), fi.loc(),
+                              okmsg=f"{fn}: subscript={sub} name={isname} head={idok} -> {want}")
+    # the arguments generator has its own copy of the Optional test
+    fi = repo.func("client_generators.arguments:ArgumentsGenerator._is_nullable")
+    p = fi.node.args.args[1].arg
+    for sub, isname, idok in ((True, True, True), (True, True, False), (True, False, False), (False, False, False)):
+        def atom2(e, sub=sub, isname=isname, idok=idok):
+            t = norm(strip_pre(e))
+            if t == f"isinstance({p}, ast.Subscript)":
+                return sub
+            if t == f"isinstance({p}.value, ast.Name)":
+                return isname
+            if t in (f"{p}.value.id == OPTIONAL", f"{p}.value.id == 'Optional'"):
+                return idok
+            return None
+        got = _pred_truth(fi, atom2)
+        want = sub and isname and idok
+        ctx.check(got == {want}, key(fi, f"subscript={sub} name={isname} head={idok}"), f"_is_nullable gives {sorted(map(str, got))}, expected {want}: "
+                  "an optional operation variable would become a required parameter (or a required one default to UNSET)", fi.loc(), okmsg=f"_is_nullable: subscript={sub} name={isname} head={idok} -> {want}")
